@@ -1,0 +1,13 @@
+//go:build verif
+
+package resource
+
+// VerifHook, when set, is called at named yield points of this package.
+// It only exists in builds with the verif tag and lets a test hold a writer between two steps to force a schedule.
+var VerifHook func(point string)
+
+func verifYield(point string) {
+	if h := VerifHook; h != nil {
+		h(point)
+	}
+}
